@@ -1,6 +1,6 @@
 (* Props/C13.v — property theorems only.  C13: results are deterministic and independent of call history. *)
-From Coq Require Import ZArith QArith List.
-From GHE Require Import Base.QUtil Model.ObjState Proof.ObjStateP.
+From Coq Require Import String ZArith QArith List.
+From GHE Require Import Base.QUtil gen.Src Model.ObjState Proof.ObjStateP Proof.WiringP.
 Import ListNotations.
 Open Scope Q_scope.
 
@@ -22,3 +22,12 @@ Theorem C13_old_code_refuted :
   let g0 := {| Hcur := 100; stored := None; times_of := None |} in
   stored (step_old (step_old g0 (Simulate Hybrid)) (Simulate Hourly)) = Some {| r_h := 100; r_m := Hourly; r_axis := Hybrid |}.
 Proof. exact old_hourly_after_hybrid_wrong_axis. Qed.
+
+(* the call sites in manager.py (read on every run): every design class is built from the manager's current input objects,
+   the same argument list for all six methods *)
+Theorem C13_every_design_built_from_current_inputs :
+  forall l, In l [wiring_nearsquare_design; wiring_rectangle_design; wiring_birectangle_design;
+                  wiring_bizoned_design; wiring_constrained_design; wiring_rowwise_design] ->
+  l = design_args.
+Proof. exact every_design_gets_the_manager_s_current_inputs. Qed.
+Print Assumptions C13_every_design_built_from_current_inputs.
